@@ -453,6 +453,31 @@ fn fragmented(quick: bool) -> Vec<Scen> {
             v.push(sc);
         }
     }
+    // the fragments' sequence ids wrap inside the request (255, 0 and 254, 255, 0): the legal
+    // successor of 255 is 0, under every single cut around the continuation headers
+    for (size, first_id) in if quick { vec![(MAXP + 9, 255u8), (2 * MAXP + 9, 254)] } else { vec![(MAXP, 255u8), (MAXP + 9, 255), (2 * MAXP + 9, 254), (2 * MAXP + 9, 255), (3 * MAXP, 253)] } {
+        let text = ascii_pattern(size - 1, 6);
+        let (c1, cb1) = small_cmd(COM_QUERY, &text);
+        let (c2, cb2) = small_cmd(COM_QUERY, b"after");
+        let mut sc = Scen::new(format!("query payload of {} bytes whose first fragment carries sequence id {}, then a small query", size, first_id), Conv::new(vec![c1.seq(first_id), c2]), vec![auth_cb(), cb1, cb2]);
+        let mut cands: Vec<usize> = Vec::new();
+        for h in sc.headers.clone() {
+            if h < sc.ends[0] {
+                continue;
+            }
+            for d in -1i64..=5 {
+                let p = h as i64 + d;
+                if p > 0 && (p as usize) < sc.stream.len() {
+                    cands.push(p as usize);
+                }
+            }
+        }
+        cands.sort();
+        cands.dedup();
+        let big: Vec<usize> = cands.iter().copied().filter(|p| *p > MAXP / 2).collect();
+        sc.sets = Some(subsets_upto(&big, 1));
+        v.push(sc);
+    }
     if !quick {
         // a command of 65 maximal packets and a tail (1.09 GB; beyond the 2^30 bytes a MySQL
         // server would accept, but the framing rules know no such limit), whole and with one cut
